@@ -154,6 +154,8 @@ pub(super) async fn run_pty_task(handle: &TaskHandle, ctx: TaskRunContext) {
         Result<Result<portable_pty::ExitStatus, std::io::Error>, tokio::task::JoinError>,
     > = None;
     let mut output_closed = false;
+    // Bytes of a character that the previous read left incomplete (see `emit_output`).
+    let mut preview_carry: Vec<u8> = Vec::new();
 
     while !(exit_status.is_some() && output_closed) {
         tokio::select! {
@@ -177,12 +179,12 @@ pub(super) async fn run_pty_task(handle: &TaskHandle, ctx: TaskRunContext) {
                 let Some(message) = maybe_control else {
                     continue;
                 };
-                drain_output(&task_id, &emitter, &mut pty_writer, max_bytes, &mut output_rx).await;
+                drain_output(&task_id, &emitter, &mut pty_writer, max_bytes, &mut output_rx, &mut preview_carry).await;
                 handle_control(&task_id, &emitter, &writer, &killer, &mut master, message).await;
             }
             maybe_chunk = output_rx.recv(), if !output_closed => {
                 match maybe_chunk {
-                    Some(chunk) => emit_output(&task_id, &emitter, &mut pty_writer, max_bytes, &chunk).await,
+                    Some(chunk) => emit_output(&task_id, &emitter, &mut pty_writer, max_bytes, &chunk, &mut preview_carry).await,
                     None => output_closed = true,
                 }
             }
@@ -280,10 +282,11 @@ async fn drain_output(
     writer: &mut TaskLogWriter,
     max_bytes: usize,
     output_rx: &mut tokio::sync::mpsc::Receiver<Vec<u8>>,
+    carry: &mut Vec<u8>,
 ) {
     loop {
         match output_rx.try_recv() {
-            Ok(chunk) => emit_output(task_id, emitter, writer, max_bytes, &chunk).await,
+            Ok(chunk) => emit_output(task_id, emitter, writer, max_bytes, &chunk, carry).await,
             Err(tokio::sync::mpsc::error::TryRecvError::Empty) => break,
             Err(tokio::sync::mpsc::error::TryRecvError::Disconnected) => break,
         }
@@ -296,13 +299,20 @@ async fn emit_output(
     writer: &mut TaskLogWriter,
     max_bytes: usize,
     chunk: &[u8],
+    carry: &mut Vec<u8>,
 ) {
     let artifacts = match writer.append(chunk).await {
         Ok(value) => Some(json!({ "log": value })),
         Err(_) => None,
     };
+    // As in the pipes pump: the bytes of a character that this read leaves incomplete are shown, as
+    // one whole character, with the next read (the log and the frame's log range are not affected).
+    let mut text = std::mem::take(carry);
+    text.extend_from_slice(chunk);
+    let tail = super::logs::incomplete_utf8_tail(&text);
+    *carry = text.split_off(text.len() - tail);
     let (preview, _truncated, _used) =
-        super::logs::truncate_utf8(chunk, max_bytes.min(super::OUTPUT_EVENT_MAX_BYTES));
+        super::logs::truncate_utf8(&text, max_bytes.min(super::OUTPUT_EVENT_MAX_BYTES));
     if preview.is_empty() && artifacts.is_none() {
         return;
     }
@@ -326,8 +336,9 @@ pub(super) async fn verif_emit_output_chunks(
     max_bytes: usize,
     chunks: &[Vec<u8>],
 ) {
+    let mut carry: Vec<u8> = Vec::new();
     for chunk in chunks {
-        emit_output(task_id, emitter, writer, max_bytes, chunk).await;
+        emit_output(task_id, emitter, writer, max_bytes, chunk, &mut carry).await;
     }
 }
 
